@@ -53,6 +53,42 @@ pub(crate) struct WireMessage {
     pub(crate) timestamp: u64,
 }
 
+/// Build a wire frame exactly as `TransportHandle::send_message` does (verification harness).
+#[cfg(feature = "verif-hooks")]
+pub fn verif_encode_wire(protocol: &str, data: Vec<u8>, from: &str, timestamp: u64) -> Vec<u8> {
+    postcard::to_stdvec(&WireMessage {
+        protocol: protocol.to_string(),
+        data,
+        from: from.to_string(),
+        timestamp,
+    })
+    .unwrap_or_default()
+}
+
+/// Decode a wire frame into (protocol, data, from, timestamp) (verification harness).
+#[cfg(feature = "verif-hooks")]
+pub fn verif_decode_wire(bytes: &[u8]) -> Option<(String, Vec<u8>, String, u64)> {
+    let m: WireMessage = postcard::from_bytes(bytes).ok()?;
+    Some((m.protocol, m.data, m.from, m.timestamp))
+}
+
+/// Build a request/response envelope as `send_request` / `send_response` do (verification harness).
+#[cfg(feature = "verif-hooks")]
+pub fn verif_encode_rr(message_id: &str, is_response: bool, payload: Vec<u8>) -> Vec<u8> {
+    postcard::to_allocvec(&RequestResponseEnvelope {
+        message_id: message_id.to_string(),
+        is_response,
+        payload,
+    })
+    .unwrap_or_default()
+}
+
+/// The crate-private frame parser of the receive loop (verification harness).
+#[cfg(feature = "verif-hooks")]
+pub fn verif_parse_protocol_message(bytes: &[u8], source: &str) -> Option<P2PEvent> {
+    parse_protocol_message(bytes, source)
+}
+
 /// Payload bytes used for keepalive messages to prevent connection timeouts.
 pub(crate) const KEEPALIVE_PAYLOAD: &[u8] = b"keepalive";
 
